@@ -55,6 +55,13 @@ CHECKS = {
     text="Quick decides the mechanism C offers against dead-store elimination: every write into dest that can be followed by a success return is volatile, or barrier-followed on all paths, or done by a callee with that property. Thorough additionally compiles 448 client programs whose erased buffer is dead (stack / heap-then-free) together with the library's current sources and checks in the disassembly that the erase survived; nothing is executed.",
     design_ref="DESIGN.md §4 C18",
     note=TB + "; compilers honour volatile and asm/fence barriers; 'every optimisation level and every client' is a quantifier over compilers that the thorough tier samples with the two installed ones; the clause 'no more than the requested bytes are changed' is C01's"),
+ "C05": dict(
+    engine="pathflags",
+    technique="path-sensitive abstract interpretation (symbolic store, linear path facts decided by Fourier-Motzkin, opaque loop phis, bounded inlining of helpers and nested exported callees) with a handler-count/code typestate; return conventions per function",
+    category="other",
+    text="For every exported function all paths are covered at once: at each return the number of constraint-handler invocations on the path and the code passed are compared with the returned indication (errno_t, negated int, EOF, NULL+*errp, false, 0). Nested calls are inlined so that whether they can report is decided from the guards on the path, which is what separates a real double report from a quiet nested call. Which inputs are violations is taken from the code's own checks; the clause 'RSIZE rejected before dest/src is touched' is not decided yet.",
+    design_ref="DESIGN.md §3.3, §4 C05",
+    note=TB + "; the handler returns normally with errno intact; listed value-level assumptions for four nested copies (sa/checks/c05.py ASSUME_QUIET); 46 triaged known findings (reproduced representatives) remain in known_findings.json"),
 }
 
 NOT_APPLICABLE = {
